@@ -39,6 +39,13 @@ impl StorageSlotHashes {
     /// Creates a new instance of the slot hashes lifting pass.
     #[must_use]
     pub fn new() -> Box<Self> {
+        #[cfg(smlxl_storage_layout_extractor_verif)]
+        {
+            return Self::new_with_hashes(crate::verif_hooks::cached_hashes(|| {
+                Self::make_hashes(SLOT_COUNT)
+            }));
+        }
+        #[allow(unreachable_code)]
         let hashes = Arc::new(RwLock::new(Self::make_hashes(SLOT_COUNT)));
         Self::new_with_hashes(hashes)
     }
